@@ -74,7 +74,7 @@ func refContainsAt(s, sub string, i int) bool {
 // HarnessC05Comment: pre {{-- body --}} post renders R(pre)+R(post) whatever the body holds short of the terminator.
 func HarnessC05Comment() {
 	pre := symBytes("pre", vParam("P"))
-	body := symBytes("body", vParam("K"))
+	body := symBytes("body", vChoice("body.len", vParam("K")+1)) // 0..K bytes: the empty comment {{----}} included
 	post := symBytes("post", vParam("Q"))
 	vAssume(refPure(pre))
 	vAssume(refPure(post))
